@@ -28,12 +28,12 @@ from hypothesis import strategies as st
 
 from vlib import gen
 from vlib.build import build_obs
-from vlib.core import Sub, Violation, Skip, require
+from vlib.core import Sub, Skip, require
 from vlib.refobs import RefObs, combine, cmp_obs
 
 PROPERTY = 'C20'
 LEVEL = 'exploration'
-RULE = ('Tables: every entry is one case (32+10 algebra relations on named matrices and on the container, 16 Grid tags '
+RULE = ('Tables: every entry is one case (52 algebra relations on the named matrices and on the container gamma[mu], 16 Grid tags '
         '+ 48 fixed unknown tags, 125 + 625 index tuples), all distinct and non-trivial, enumerated completely. '
         'Generated: tag strings obtained by mutating the 16 names; index tuples from -3..8 as int / numpy int / float; '
         'K_n and the 30 other re-exported special functions applied through derived_observable to observables '
@@ -352,8 +352,16 @@ def tag_case(draw, tier):
 @st.composite
 def eps_case(draw, tier):
     rank = draw(st.sampled_from([3, 4]))
-    mode = draw(st.sampled_from(['domain1', 'domain0', 'mixed', 'wide']))
-    if mode == 'domain1':
+    mode = draw(st.sampled_from(['perm1', 'perm0', 'domain1', 'domain0', 'mixed', 'wide']))
+    perm = None
+    if mode in ('perm1', 'perm0'):
+        # a permutation of the index set, with one entry possibly replaced (repeated index / index outside the set)
+        base = list(range(1, rank + 1)) if mode == 'perm1' else list(range(rank))
+        perm = list(draw(st.permutations(base)))
+        if draw(st.integers(0, 3)) == 0:
+            perm[draw(st.integers(0, rank - 1))] = draw(st.integers(-1, rank + 1))
+        vals = None
+    elif mode == 'domain1':
         vals = st.integers(1, rank)
     elif mode == 'domain0':
         vals = st.integers(0, rank - 1)
@@ -363,7 +371,7 @@ def eps_case(draw, tier):
         vals = st.integers(-3, 8)
     formmode = draw(st.sampled_from(['int', 'numpy', 'float', 'any']))
     idx = []
-    for _ in range(rank):
+    for k in range(rank):
         if formmode == 'int':
             f = 'int'
         elif formmode == 'numpy':
@@ -372,7 +380,7 @@ def eps_case(draw, tier):
             f = draw(st.sampled_from(['float', 'float', 'int']))
         else:
             f = draw(st.sampled_from(['int', 'int64', 'int32', 'int8', 'float', 'frac']))
-        idx.append({'form': f, 'v': draw(vals)})
+        idx.append({'form': f, 'v': perm[k] if perm is not None else draw(vals)})
     return {'idx': idx, 'mode': mode}
 
 
@@ -383,14 +391,13 @@ DATA_KINDS = ('white', 'ar1', 'const', 'alt', 'list')
 
 
 @st.composite
-def obs_near(draw, x, room, nmax, ens_max=2, rep_max=2):
+def obs_near(draw, x, room, nmax, pool, ens_max=2, rep_max=2):
     """obs spec whose central value is x up to the sampling noise of its chains (sigma = rel * room, rel <= 0.1,
     room = distance of x to the boundary of the domain), built as sum over ensembles + optional covariance part."""
     rel = draw(st.sampled_from([0.002, 0.02, 0.1]))
     sigma = rel * room
     enss = draw(gen.ensemble_names(1, ens_max))
-    pool = draw(gen.cov_pool(1))
-    cov = draw(gen.cov_part(pool, 0.6))
+    cov = draw(gen.cov_part(pool, 0.6))     # one pool per case: a shared name means the same covariance matrix
     c = sum(g * m for cv in cov for g, m in zip(cv['grad'], cv['means']))
     w = [draw(st.sampled_from([1.0, 0.5, 0.25, 2.0])) for _ in enss]
     chains = []
@@ -434,18 +441,28 @@ def layout_labels(specs):
 
 
 def fd_ok(f, vals, grads, gscales, hs):
-    """central differences of the reference function agree with the analytic gradient of the reference"""
+    """Richardson-extrapolated central differences (steps h, h/2) of the reference function agree with the analytic
+    gradient of the reference.  Tolerance: 1e-6 of the derivative terms + a tenth of the difference between the two
+    step sizes (truncation) + rounding of the function values (eps |f| / h) + rounding of the shifted arguments
+    (eps |x| / h times the one-sided slopes)."""
+    eps = float(np.finfo(float).eps)
+    f0 = f(list(vals))
     for i in range(len(vals)):
-        h = hs[i]
-        up = list(vals)
-        dn = list(vals)
-        up[i] = vals[i] + h
-        dn[i] = vals[i] - h
-        fu, fd = f(up), f(dn)
-        if not (math.isfinite(fu) and math.isfinite(fd)):
-            return False
-        num = (fu - fd) / ((vals[i] + h) - (vals[i] - h))
-        tol = 1e-6 * max(gscales[i], abs(num)) + 256 * np.finfo(float).eps * max(abs(fu), abs(fd)) / h
+        d = []
+        rnd = 0.0
+        for h in (hs[i], 0.5 * hs[i]):
+            up = list(vals)
+            dn = list(vals)
+            up[i] = vals[i] + h
+            dn[i] = vals[i] - h
+            fu, fd = f(up), f(dn)
+            if not (math.isfinite(fu) and math.isfinite(fd)):
+                return False
+            d.append((fu - fd) / (up[i] - dn[i]))
+            slope = max(abs(fu - f0), abs(f0 - fd)) / h
+            rnd = max(rnd, 256 * eps * max(abs(fu), abs(fd)) / h + 16 * eps * max(abs(vals[i]), h) / h * slope)
+        num = (4.0 * d[1] - d[0]) / 3.0
+        tol = 1e-6 * max(gscales[i], abs(num)) + 0.1 * abs(d[1] - d[0]) + 4 * rnd
         if not abs(num - grads[i]) <= tol:
             return False
     return True
@@ -461,9 +478,12 @@ def judge(what, res, f, grads, gscales, refs, hs):
         raise Skip('non-finite reference')
     if not fd_ok(f, vals, grads, gscales, hs):
         raise Skip('reference derivative not confirmed by central differences')
+    if isinstance(res, np.ndarray) and res.shape == ():
+        res = res[()]           # scipy functions returning 0-d arrays (polygamma): the container is not part of the property
     require(isinstance(res, pe.Obs), what + ': result is not an Obs', type(res).__name__)
     rf = combine(f, grads, refs)
-    rf.mag = combine(f, gscales, refs).mag
+    sc = combine(f, gscales, refs)        # same propagation with |terms| summed: scale of the rounding errors
+    rf.mag, rf.cgmag = sc.mag, sc.cgmag
     skip = set()
     for n in list(rf.rv):
         if not math.isfinite(rf.rv[n]):
@@ -515,7 +535,7 @@ def logu(lo, hi):
 @st.composite
 def kn_case(draw, tier):
     nmax = 12 if tier == 'quick' else 60
-    n = draw(st.one_of(st.integers(0, 6), st.integers(0, 6), st.integers(0, 6), st.integers(-6, -1)))
+    n = draw(st.sampled_from(list(range(0, 7)) * 3 + list(range(-6, 0))))
     wrap = draw(st.sampled_from(KN_WRAPS))
     x = draw(st.one_of(logu(0.05, 20.0), logu(0.05, 1.0), st.sampled_from([0.05, 0.1, 0.5, 1.0, 2.0, 7.3, 20.0])))
     spec = {'n': n, 'nform': draw(st.sampled_from(['int', 'int', 'float', 'npint'])), 'wrap': wrap, 'x': x}
@@ -528,15 +548,16 @@ def kn_case(draw, tier):
     if wrap == 'sum2':
         spec['m'] = draw(st.integers(0, 6))
     xo = x / a                     # value of the observable; the argument of K_n is a * xo = x
-    obs = [draw(obs_near(xo, xo, nmax))]
+    pool = draw(gen.cov_pool(1))
+    obs = [draw(obs_near(xo, xo, nmax, pool))]
     if wrap == 'product':
         y = draw(st.one_of(gen.fl(0.2, 3.0), gen.fl(-3.0, -0.2)))
         spec['y'] = y
-        obs.append(draw(obs_near(y, 1.0, nmax)))
+        obs.append(draw(obs_near(y, 1.0, nmax, pool)))
     if wrap == 'array':
         x2 = draw(logu(0.05, 20.0))
         spec['x2'] = x2
-        obs.append(draw(obs_near(x2, x2, nmax)))
+        obs.append(draw(obs_near(x2, x2, nmax, pool)))
     spec['obs'] = obs
     return spec
 
@@ -661,7 +682,7 @@ SPECIAL = {
     'erfinv': ('x', [[I(-0.998, 0.998, -1.0, 1.0)]], lambda y: sp.erfinv(y), [lambda y: [math.exp(sp.erfinv(y) ** 2) / RSQPI]]),
     'erfcinv': ('x', [[I(0.002, 1.998, 0.0, 2.0)]], lambda y: sp.erfcinv(y), [lambda y: [-math.exp(sp.erfcinv(y) ** 2) / RSQPI]]),
     'logit': ('x', [UNIT01], lambda x: sp.logit(x), [lambda x: [1.0 / x, 1.0 / (1.0 - x)]]),
-    'expit': ('x', [REAL20], lambda x: sp.expit(x), [lambda x: [0.25 / math.cosh(0.5 * x) ** 2]]),
+    'expit': ('x', [REAL20], lambda x: sp.expit(x), [lambda x: [sp.expit(x), -sp.expit(x) ** 2]]),     # s - s^2: for large |x| only defined up to eps * s
     'gamma': ('x', [GAMMA_DOM], lambda x: sp.gamma(x), [lambda x: [sp.gamma(x) * _psi(x)]]),
     'gammaln': ('x', [GAMMA_DOM + [I(15.0, 60.0, 0.0, None)]], lambda x: sp.gammaln(x), [lambda x: [_psi(x)]]),
     'rgamma': ('x', [GAMMA_DOM], lambda x: sp.rgamma(x), [lambda x: [-_psi(x) * sp.rgamma(x)]]),
@@ -726,13 +747,14 @@ def draw_real(draw, dom):
         x = draw(logu(lo, hi))
     else:
         x = draw(st.one_of(gen.fl(lo, hi), st.sampled_from([lo, hi, 0.5 * (lo + hi), lo + 0.25 * (hi - lo)])))
-    if x == 0.0:
-        x = 0.5 * hi      # several derivative formulas of the reference are written with 1/x
+    if abs(x) < 1e-3:
+        x = math.copysign(1e-3, x) if lo < 0 else max(lo, 1e-3)     # several derivative formulas of the reference are written with 1/x
     return x, _room(x, iv)
 
 
 def _selfcheck_special():
     """analytic derivative table against central differences on a fixed grid of arguments inside the domains"""
+    n = 0
     for name, (kinds, doms, f, d) in SPECIAL.items():
         if f is None:
             continue
@@ -754,18 +776,14 @@ def _selfcheck_special():
                 if k != 'x':
                     continue
                 iv = _pick_interval(args[i], doms[i])
-                h = 1e-5 * _room(args[i], iv)
-                up = list(args)
-                dn = list(args)
-                up[i] += h
-                dn[i] -= h
-                fu, fd = float(f(*up)), float(f(*dn))
-                num = (fu - fd) / (up[i] - dn[i])
+                h = 1e-5 * min(_room(args[i], iv), max(abs(args[i]), 1e-3))
                 terms = [float(t) for t in d[i](*args)]
                 an = math.fsum(terms)
                 sc = math.fsum(abs(t) for t in terms)
-                tol = 1e-6 * max(sc, abs(num)) + 256 * np.finfo(float).eps * max(abs(fu), abs(fd)) / h
-                assert abs(num - an) <= tol, ('derivative table', name, args, i, num, an)
+                fi = lambda v, i=i, args=args: float(f(*[v[0] if j == i else a for j, a in enumerate(args)]))  # noqa: E731
+                assert fd_ok(fi, [args[i]], [an], [sc], [h]), ('derivative table', name, args, i, an)
+                n += 1
+    assert n > 400, n
 
 
 _selfcheck_special()
@@ -780,12 +798,13 @@ def special_case(draw, tier):
     kinds, doms, f, d = SPECIAL[name]
     spec = {'fn': name, 'wrap': draw(st.sampled_from(SP_WRAPS)), 'c': draw(st.one_of(gen.fl(0.1, 3.0), gen.fl(-3.0, -0.1)))}
     args, obs = [], []
+    pool = draw(gen.cov_pool(1))
     if name == 'logsumexp':
         k = draw(st.integers(2, 4))
         for _ in range(k):
             x, room = draw(draw_real(doms[0]))
             args.append({'v': x, 'room': room, 'obs': len(obs)})
-            obs.append(draw(obs_near(x, room, nmax, ens_max=1)))
+            obs.append(draw(obs_near(x, room, nmax, pool, ens_max=1)))
         spec['args'], spec['obs'] = args, obs
         return spec
     nx = sum(1 for k in kinds if k == 'x')
@@ -803,7 +822,7 @@ def special_case(draw, tier):
             lo = 0.5 * (dd - 1)
             x = draw(logu(lo + 0.1, lo + 15.0))
             args.append({'v': x, 'room': x - lo, 'obs': 0})
-            obs.append(draw(obs_near(x, x - lo, nmax)))
+            obs.append(draw(obs_near(x, x - lo, nmax, pool)))
             args.append({'v': dd, 'obs': None, 'int': True})
             break
         x, room = draw(draw_real(dom))
@@ -816,7 +835,7 @@ def special_case(draw, tier):
         ix += 1
         if as_obs:
             args.append({'v': x, 'room': room, 'obs': len(obs)})
-            obs.append(draw(obs_near(x, room, nmax, ens_max=2 if nx == 1 else 1)))
+            obs.append(draw(obs_near(x, room, nmax, pool, ens_max=2 if nx == 1 else 1)))
         else:
             args.append({'v': x, 'obs': None})
     if name in ('iv', 'ive') and args[1]['v'] < 0:
@@ -839,7 +858,7 @@ def special_oracle(spec):
     hs = [None] * len(obs)
     for a in args:
         if a['obs'] is not None:
-            hs[a['obs']] = 1e-5 * a['room']
+            hs[a['obs']] = 1e-5 * min(a['room'], max(abs(a['v']), 1e-3))
 
     def full(v):
         return [v[p] if p is not None else cst for p, cst in zip(pos, consts)]
@@ -901,12 +920,12 @@ SUBS = [
         enum=make_enum(grid_cases, tag_oracle), doc='16 Grid tags vs products / commutators, fixed unknown tags (complete)'),
     Sub('epsilon', None, eps_oracle, {'quick': 0, 'thorough': 0}, {'quick': 1, 'thorough': 1}, kind='enum',
         enum=make_enum(eps_cases, eps_oracle), doc='epsilon tensors on {0..4}^3 and {0..4}^4 (complete)'),
-    Sub('tags', tag_case, tag_oracle, {'quick': 300, 'thorough': 5000}, {'quick': 1, 'thorough': 2},
+    Sub('tags', tag_case, tag_oracle, {'quick': 1000, 'thorough': 10000}, {'quick': 1, 'thorough': 2},
         doc='generated tag strings: known -> stated matrix, unknown -> rejected'),
-    Sub('eps_forms', eps_case, eps_oracle, {'quick': 400, 'thorough': 5000}, {'quick': 1, 'thorough': 2},
+    Sub('eps_forms', eps_case, eps_oracle, {'quick': 1000, 'thorough': 15000}, {'quick': 1, 'thorough': 2},
         doc='index tuples from -3..8 as int / numpy int / float'),
-    Sub('kn', kn_case, kn_oracle, {'quick': 200, 'thorough': 3000}, {'quick': 5, 'thorough': 16},
+    Sub('kn', kn_case, kn_oracle, {'quick': 400, 'thorough': 12000}, {'quick': 6, 'thorough': 16},
         doc='K_n on observables: exact derivative -(K_{n-1}+K_{n+1})/2', max_skip_frac=0.05),
-    Sub('special', special_case, special_oracle, {'quick': 250, 'thorough': 4000}, {'quick': 8, 'thorough': 16},
+    Sub('special', special_case, special_oracle, {'quick': 500, 'thorough': 20000}, {'quick': 8, 'thorough': 16},
         doc='re-exported special functions: analytic derivatives', max_skip_frac=0.05),
 ]
